@@ -108,7 +108,8 @@ MODULE_OF = {"LShift": "lshift", "RShift": "rshift"}
 
 
 def arm_callees(lib, b, tgt):
-    """callees of an arm incl. fn items passed as values and the callees of closures created in the arm"""
+    """callees of an arm incl. fn items passed as values, the callees of closures created in the arm and of the private
+    helper functions of the dispatcher's own module it mentions (a closure turned into a named function is the same code)"""
     region = set(arm_region(b, tgt))
     out = set()
     for c in b.calls:
@@ -117,9 +118,22 @@ def arm_callees(lib, b, tgt):
     for bb, name, _, _ in b.fn_operands():
         if bb in region:
             out.add(name)
-            cb = lib.body(name)
-            if cb is not None and "{closure" in name:
-                out.update(c.callee for c in cb.calls if c.callee)
+    mod = b.id.rsplit("::", 1)[0] if not b.id.startswith("<") else None
+    work = list(out)
+    depth = {n: 0 for n in work}
+    while work:
+        n = work.pop()
+        hb = lib.body(n)
+        if hb is None or depth[n] >= 2:
+            continue
+        helper = "{closure" in n or (mod is not None and n.rsplit("::", 1)[0] == mod and n != b.id)
+        if not helper:
+            continue
+        for x in [c.callee for c in hb.calls if c.callee] + [x[1] for x in hb.fn_operands()]:
+            if x not in out:
+                out.add(x)
+                depth[x] = depth[n] + 1
+                work.append(x)
     return out
 
 
@@ -231,6 +245,16 @@ def run_valuearm(ctx):
     region = arm_region(b, sws[0]["arms"]["Value"])
     cs = calls_in(b, region)
     eqs = [c for c in cs if c.callee == EQ]
+    if not eqs:
+        # the candidate loop was moved into a helper that belongs to covers alone: judge that helper's body
+        called = {c.callee for c in cs}
+        for hb in for_crate(lib).cluster(COVERS):
+            if hb is not b and hb.id in called and any(c.callee == EQ for c in hb.calls):
+                b = hb
+                region = list(range(len(hb.blocks)))
+                cs = list(hb.calls)
+                eqs = [c for c in cs if c.callee == EQ]
+                break
     key = "valuearm:decision"
     if not eqs:
         res.bad(key, "the value arm of MatchArm::covers does not compare a candidate with the matched value by Variable::eq", b.where())
